@@ -392,14 +392,38 @@ Proof.
     destruct (B2 i), (Hb1 i), (Hb4 i). split; lia.
 Qed.
 
-(* every operation of a history *)
-Lemma step_budget fc fb tid_of c o : tinv c ->
+(* forgetting a transaction *)
+Lemma remove_budget c c' id : c_T c' = T_remove id (c_T c) -> c_next_inst c' = c_next_inst c -> c_maxA c' = c_maxA c ->
+  tinv c -> tinv c' /\ forall i, inv_budget c' i <= inv_budget c i /\ wr_budget c' i <= wr_budget c i.
+Proof.
+  intros HT Hn Hm (Hid & Hin & Hall). split.
+  - unfold tinv. rewrite HT, Hn, Hm. unfold T_remove. split; [apply NoDup_map_filter'; exact Hid|].
+    split; [apply NoDup_map_filter'; exact Hin|]. rewrite Forall_forall in *. intros x Hx. apply filter_In in Hx as [Hx _]. apply Hall, Hx.
+  - intros i. unfold inv_budget, wr_budget. rewrite HT, Hn, Hm.
+    assert (Hl : lives (T_remove id (c_T c)) i = true -> lives (c_T c) i = true).
+    { intros H. apply lives_iff in H as (t & Ht & Hi). apply lives_iff. exists t. split; [|exact Hi]. apply In_remove in Ht. apply Ht. }
+    assert (Hf : forall t, find_inst (T_remove id (c_T c)) i = Some t -> find_inst (c_T c) i = Some t).
+    { intros t H. apply find_inst_some in H; [|apply NoDup_map_filter'; exact Hin]. destruct H as [Ht Hi].
+      apply find_inst_some; [exact Hin|]. split; [apply In_remove in Ht; apply Ht | exact Hi]. }
+    split.
+    + destruct (lives (T_remove id (c_T c)) i) eqn:E1; [rewrite (Hl eq_refl); cbn [orb]; lia|].
+      cbn [orb]. destruct (lives (c_T c) i); cbn [orb]; destruct (c_next_inst c <=? i); lia.
+    + destruct (find_inst (T_remove id (c_T c)) i) as [t|] eqn:E1; [rewrite (Hf t eq_refl); lia|].
+      destruct (find_inst (c_T c) i) as [t|] eqn:E2; [|lia].
+      apply find_inst_some in E2; [|exact Hin]. destruct E2 as [Ht Hi]. rewrite Forall_forall in Hall.
+      destruct (Hall t Ht) as (Hlt & _ & _). destruct (N.leb_spec (c_next_inst c) i); lia.
+Qed.
+
+Definition not_race (o : cop) : Prop := match o with CStartRace _ _ _ => False | _ => True end.
+
+(* every operation of a history (the interleaved Start / Close is composed from these below) *)
+Lemma step_budget_base fc fb tid_of c o : not_race o -> tinv c ->
   let '(c', ob) := c_step fc fb tid_of c o in
   tinv c' /\ c_maxA c' = c_maxA c /\
   forall i, count_invokes i ob + inv_budget c' i <= inv_budget c i /\
             count_writes i ob + wr_budget c' i <= wr_budget c i.
 Proof.
-  intros Hinv. destruct o as [id raw h|raw|d|now|now|r|s| |now|d|fid|sid]; cbn [c_step].
+  intros Hnr Hinv. destruct o as [id raw h|raw|d|now|now|r|s| |now|d|fid|sid|rid rraw rh]; cbn [c_step]; [| | | | | | | | | | | |destruct Hnr].
   - (* Start *)
     unfold c_start, c_start_gen. destruct (c_closed c).
     { split; [exact Hinv|]. split; [reflexivity|]. intros i. destruct (no_counts_ret CClientClosed i) as [-> ->]. split; lia. }
@@ -550,6 +574,44 @@ Proof.
     destruct (feed _ _ _ _ _) as [c2 ob]. destruct Hf as (I2 & F2 & B2).
     split; [exact I2|]. split; [unfold frame in F2; injection F2 as _ _ Hm _ _ _ _ _; exact Hm|].
     intros i. destruct (B2 i), (Hb i). split; lia.
+Qed.
+
+Lemma step_budget fc fb tid_of c o : tinv c ->
+  let '(c', ob) := c_step fc fb tid_of c o in
+  tinv c' /\ c_maxA c' = c_maxA c /\
+  forall i, count_invokes i ob + inv_budget c' i <= inv_budget c i /\
+            count_writes i ob + wr_budget c' i <= wr_budget c i.
+Proof.
+  intros Hinv.
+  destruct o as [id raw h|raw|d|now|now|r|s| |now|d|fid|sid|rid rraw rh];
+    try (apply step_budget_base; [exact I | exact Hinv]).
+  cbn [c_step]. unfold c_start_race.
+  destruct (c_closed c || match T_find rid (c_T c) with Some _ => true | None => false end) eqn:E.
+  - (* Start fails before it reaches the agent: Start, then Close *)
+    pose proof (step_budget_base fc fb tid_of c (CStart rid rraw rh) I Hinv) as H1. cbn [c_step] in H1.
+    destruct (c_start c rid rraw (Some rh)) as [c1 o1]. destruct H1 as (I1 & M1 & B1).
+    pose proof (step_budget_base fc fb tid_of c1 CClose I I1) as H2. cbn [c_step] in H2.
+    destruct (c_close fc fb c1) as [c2 o2]. destruct H2 as (I2 & M2 & B2).
+    split; [exact I2|]. split; [congruence|]. intros i.
+    destruct (count_app i o1 o2) as [Ha Hb]. rewrite Ha, Hb. destruct (B1 i), (B2 i). split; lia.
+  - (* Close runs between the registration and the agent's Start *)
+    apply orb_false_iff in E as [Ec Ef].
+    assert (Hfresh : ~ In rid (map t_id (c_T c))) by (apply T_find_none; destruct (T_find rid (c_T c)); [discriminate | reflexivity]).
+    set (t := mkTxn (c_next_inst c) rid 0 0 rh (c_rto c) rraw).
+    set (c0 := mkClient _ _ _ _ _ _ _ _ _ _ (c_next_inst c + 1)).
+    set (c1 := upd_T c0 (c_T c0 ++ [t])).
+    destruct (register_budget c c1 t eq_refl eq_refl eq_refl eq_refl eq_refl eq_refl Hfresh Hinv) as [I1 B1].
+    destruct (budget_ext c1 (set_closed c1) eq_refl eq_refl eq_refl) as [Hi1 Hb1].
+    pose proof (close_core_budget fc fb (set_closed c1) (Hi1 I1)) as Hc.
+    destruct (c_close_core fc fb (set_closed c1)) as [c2 o2]. destruct Hc as (I2 & M2 & B2).
+    destruct (a_step (c_A c2) _) as [A' [r evs]].
+    destruct (remove_budget c2 (upd_T (upd_A c2 A') (T_remove rid (c_T c2))) rid eq_refl eq_refl eq_refl I2) as [I3 B3].
+    split; [exact I3|]. split; [cbn [c_maxA upd_T upd_A]; rewrite M2; reflexivity|]. intros i.
+    destruct (count_app i o2 ([ORet CNil] ++ [ORet (CAgentErr r)])) as [Ha Hb]. rewrite Ha, Hb.
+    destruct (count_app i [ORet CNil] [ORet (CAgentErr r)]) as [Ha2 Hb2]. rewrite Ha2, Hb2.
+    destruct (no_counts_ret CNil i) as [-> ->]. destruct (no_counts_ret (CAgentErr r) i) as [-> ->].
+    destruct (B1 i), (B2 i), (B3 i), (Hb1 i) as [E1 E2]. rewrite E1, E2 in *.
+    destruct (i =? c_next_inst c); split; lia.
 Qed.
 
 (* ------------------------------------------------------------------ over every history *)
